@@ -9,9 +9,8 @@
 //                                exhaustive 5x5 enumeration of the thorough tier affordable
 //   direct_sky_empty kind        kind 0: solver::skyline_lu<double> constructed from a 0 x 0 matrix + operator() on empty vectors,
 //                                kind 1: amg<builtin<double>, smoothed_aggregation, spai0> on a 0 x 0 system (its own coarsest level);
-//                                forked child, result `ok` / `crash`.  NOT generated yet: skyline_lu::factorize() still reads D[0]
-//                                of an empty vector (notes/repro/skyline_empty.cpp, repo_patches/fix_skyline_empty.patch); the op
-//                                is there for replay / corpus use once the library survives it.
+//                                forked child, result `ok` / `precondition` / `crash` (finding F42: factorize() read D[0] of an
+//                                empty vector); the model side runs CMK.get + the skyline model on the empty matrix (kind 0)
 // Result line: `ok n p_0 .. p_{n-1}`; for n = 0 (`if (n == 0) return;`, fix of finding F41) `ok 0`: the real code is run in a
 // forked child on an empty `perm` and on a longer one (which must be left untouched); `crash` + oracle failure if the child
 // dies; `precondition` (amgcl's exception) is an oracle failure as well.
@@ -35,7 +34,7 @@ static std::vector<long> run_cmk(long rev, const Mat &A, long fill) {
 }
 
 // run `f` in a forked child; true iff it returns 0 (sanitizer reports, signals and exceptions are all "does not survive")
-template <class F> static bool survives(F f) {
+template <class F> static int child_status(F f) {
     fflush(0);
     pid_t pid = fork();
     if (pid < 0) throw std::runtime_error("fork");
@@ -45,8 +44,9 @@ template <class F> static bool survives(F f) {
         _exit(rc);
     }
     int st = 0; waitpid(pid, &st, 0);
-    return WIFEXITED(st) && WEXITSTATUS(st) == 0;
+    return WIFEXITED(st) ? WEXITSTATUS(st) : -1;
 }
+template <class F> static bool survives(F f) { return child_status(f) == 0; }
 // n = 0: the code returns at once and leaves `perm` (empty, or longer than it should be) untouched
 static bool survives_empty(long rev, const Mat &A) {
     return survives([&]() -> int {
@@ -56,12 +56,14 @@ static bool survives_empty(long rev, const Mat &A) {
         for (long v : longer) if (v != 7) return 1;
         return 0; });
 }
-static bool survives_sky_empty(long kind) {
-    return survives([&]() -> int {
+static int status_sky_empty(long kind) {
+    return child_status([&]() -> int {
         std::vector<ptrdiff_t> ptr(1, 0), col; std::vector<double> val;
         amgcl::backend::crs<double, ptrdiff_t, ptrdiff_t> A(0, 0, ptr, col, val);
-        if (kind == 0) { amgcl::solver::skyline_lu<double> S(A); std::vector<double> f, x; S(f, x); }
-        else { amgcl::amg<amgcl::backend::builtin<double>, amgcl::coarsening::smoothed_aggregation, amgcl::relaxation::spai0> P(A); }
+        try {
+            if (kind == 0) { amgcl::solver::skyline_lu<double> S(A); std::vector<double> f, x; S(f, x); }
+            else { amgcl::amg<amgcl::backend::builtin<double>, amgcl::coarsening::smoothed_aggregation, amgcl::relaxation::spai0> P(A); }
+        } catch (const std::exception &) { return 9; }
         return 0; });
 }
 
@@ -127,7 +129,9 @@ static Result execute(const Toks &t) {
     else if (op == "direct_sky_empty") {
         long kind = c.nat(); c.expect_end(); if (kind < 0 || kind > 1) throw bad_input("kind");
         Result r; r.tag(kind ? "amg_empty" : "sky_empty");
-        if (survives_sky_empty(kind)) r.out = "ok"; else { r.out = "crash"; r.fail(kind ? "amg on a 0 x 0 system crashes" : "skyline_lu on a 0 x 0 matrix crashes"); }
+        int st = status_sky_empty(kind);
+        if (st == 0) r.out = "ok"; else if (st == 9) { r.out = "precondition"; r.fail("exception on a 0 x 0 system"); }
+        else { r.out = "crash"; r.fail(kind ? "amg on a 0 x 0 system crashes" : "skyline_lu on a 0 x 0 matrix crashes"); }
         return r;
     }
     Result r; r.out = "bad-op"; return r;
@@ -195,6 +199,7 @@ static void generate(Rng &rng, const Opts &o, std::vector<std::string> &lines) {
     long scale = o.cases > 0 ? o.cases : (T ? 8 : 1);
     // ---- n = 0
     lines.push_back("direct_cmk 0 0 0"); lines.push_back("direct_cmk 1 0 0"); lines.push_back("direct_cmk_pat 0 0 0");
+    lines.push_back("direct_sky_empty 0"); lines.push_back("direct_sky_empty 1");
     // ---- exhaustive: every pattern (diagonal included) up to 3x3 (thorough: 4x4); quick 4x4: every off-diagonal pattern with the
     //      diagonal masks all / none / pseudo-random, both variants
     for (long n = 1; n <= (T ? 4 : 3); ++n) for (unsigned long long code = 0; code < (1ULL << (n * n)); ++code) for (long rev = 0; rev < 2; ++rev) emit_pat(lines, rev, n, code);
